@@ -1,7 +1,8 @@
 """Child process: runs femio's convert_nodal2elemental / convert_elemental2nodal
 on the meshes/queries read from stdin (JSON); every float of the result is
 reported exactly as [numerator, denominator] (float.as_integer_ratio).  A fresh
-FEMData per query.  Elemental inputs are given keyed by element id and are put
+FEMData per query; cases marked `shared` run their whole step sequence (queries
+and in-place modifications) on ONE object.  Elemental inputs are given keyed by element id and are put
 into the order of fd.elements.ids here (that order is reported back)."""
 import contextlib
 import io
@@ -12,7 +13,7 @@ import warnings
 import numpy as np
 
 sys.path.insert(0, __file__.rsplit('/', 1)[0])
-from c13_impl import build  # noqa
+from c13_impl import build, apply_mod  # noqa
 
 
 def exact(arr):
@@ -51,12 +52,22 @@ def main():
     with contextlib.redirect_stdout(sink):
         for case in spec['cases']:
             res = []
+            shared = None
+            if case.get('shared'):
+                try:
+                    shared = build(case['mesh'])
+                except Exception:  # noqa
+                    shared = None
             for q in case['queries']:
                 sink.seek(0)
                 sink.truncate()
                 r = {}
                 try:
-                    fd = build(case['mesh'])
+                    fd = shared if shared is not None else build(case['mesh'])
+                    if q['kind'] == 'mod':
+                        apply_mod(fd, q)
+                        res.append({'mod': 'done'})
+                        continue
                     r['elem_ids'] = [int(x) for x in fd.elements.ids]
                     val, _ = run_query(fd, q)
                     r.update(exact(val))
